@@ -67,4 +67,15 @@ def getValue (completion : Bool) (σ : Asg) (f : Term) : Option Term :=
     let r := simp (substConst σ' f)
     if Build.isConstant r then some r else none
 
+/-- `Model.satisfies(formula)` (pysmt/solvers/solver.py:492-532) for an `EagerModel` and no solver
+argument: `subs = self.get_values(free_variables)` asks `get_value` (with completion) for every free
+symbol, i.e. completes the assignment on the free symbols of the formula (and raises — `none` —
+for a symbol whose sort has no default); the formula is substituted and simplified; `True` iff the
+result is the constant TRUE. Every other outcome (the constant FALSE, remaining free symbols = partial
+model, a division by zero that is not folded — the replacement loop needs a solver) is `False`. -/
+def satisfies (σ : Asg) (f : Term) : Option Bool :=
+  match complete σ f.fv with
+  | none => none
+  | some σ' => some (Build.isTrue (simp (substConst σ' f)))
+
 end PySMT.Model
